@@ -1020,7 +1020,8 @@ def e3_types(run, tier):
     types = {}
     for k, v in d["types"].items():
         kids = v["children"]
-        if not kids or not v["pathmask"]:
+        valued = bool(v["cdenum"]) or any(a["items"] for a in v["attrs"])
+        if (not kids and not valued) or not v["pathmask"]:
             continue
         # focus: children in nested groups, version-partial ones, duplicates by name, the first and the last ones (at most 7)
         names = [c["name"] for c in kids]
